@@ -31,6 +31,10 @@ COMMON_TABLE = set(K.MF["common_table_keys"]) | {"dataset"}
 
 
 SPECIAL = [
+    "CREATE TABLE t1 (\n#legacy column, kept for (old) clients\na int,\nb int);\n",
+    "#todo: remove\nCREATE TABLE t1 (a int, b int);\n##obsolete\nCREATE TABLE #tmp1 (a int);\n",
+    "-- head\nCREATE TABLE t1 (a int, -- one\n b int /* two */\n);\n/* block\n over lines */\nCREATE TABLE [dbo].[t2] ([x] int);\nGO\n",
+    "CREATE TABLE t1 (a int DEFAULT 5, b varchar(10) DEFAULT 'x') ;\nSET ANSI_NULLS ON;\nGO\nCREATE TABLE t2 (c int);\n",
     "CREATE TABLE p1.ds.t1 (a int, b int);\nALTER TABLE ds.t1 ADD UNIQUE (a);\nCREATE INDEX i1 ON ds.t1 (b);\n",
     "CREATE TABLE ds.t1 (a int, b int);\nALTER TABLE p1.ds.t1 ADD FOREIGN KEY (a, b) REFERENCES p1.ds.o (x, y);\n",
     "CREATE TABLE `p1`.`ds`.`t1` (a int, b int);\nCREATE UNIQUE INDEX i1 ON `p1`.`ds`.`t1` (a DESC);\n",
